@@ -1,0 +1,60 @@
+//go:build verif
+
+package s3db
+
+import (
+	"github.com/jrhy/mast"
+	"github.com/jrhy/s3db/kv"
+	"github.com/jrhy/s3db/kv/crdt"
+	v1proto "github.com/jrhy/s3db/proto/v1"
+)
+
+// Verification hooks (build tag "verif"): exported views of unexported
+// functions, for differential checking against a formal model. Add-only.
+
+func VerifMergeValues(i1, i2 crdt.Value) crdt.Value { return mergeValues(nil, i1, i2) }
+
+func VerifMarshalNode(n mast.Node) ([]byte, error) { return marshalProto(n) }
+
+func VerifUnmarshalNode(b []byte, n *mast.Node) error { return unmarshalProto(b, n) }
+
+func VerifParseSchema(cols string) (schemaString string, keyCol int, usesRowID bool, err error) {
+	t := &VirtualTable{}
+	err = convertSchema(cols, t)
+	return t.SchemaString, t.KeyCol, t.usesRowID, err
+}
+
+func VerifTableNames() []string {
+	tableLock.Lock()
+	defer tableLock.Unlock()
+	var res []string
+	for k := range tables {
+		res = append(res, k)
+	}
+	return res
+}
+
+// VerifKVConfig is the kv.Config that OpenKV assembles for s3db row trees.
+func VerifKVConfig(endpoint, bucket, path string, entriesPerNode, nodeCacheEntries int) kv.Config {
+	cfg := kv.Config{
+		Storage: &kv.S3BucketInfo{
+			EndpointURL: endpoint,
+			BucketName:  bucket,
+			Prefix:      path,
+		},
+		KeysLike:                     &Key{},
+		ValuesLike:                   &v1proto.Row{},
+		CustomMerge:                  mergeValues,
+		CustomMarshal:                marshalProto,
+		CustomUnmarshal:              unmarshalProto,
+		MastNodeFormat:               string(mast.V1Marshaler),
+		UnmarshalUsesRegisteredTypes: true,
+	}
+	if nodeCacheEntries > 0 {
+		cfg.NodeCache = mast.NewNodeCache(nodeCacheEntries)
+	}
+	if entriesPerNode > 0 {
+		cfg.BranchFactor = uint(entriesPerNode)
+	}
+	return cfg
+}
